@@ -175,7 +175,7 @@ def rule_e(ctx):
             ctx.check(exp and exp <= new, rid, "%s:new-from-expected" % nm, "%s: the new queue word is computed from the snapshot used as the CAS's expected value" % nm, s1.sp,
                       {"expected_from": sorted(exp), "new_from": sorted(new)})
             # returned payload (take primitive)
-            if "core::option::Option<u16>" in c.local_ty(0):
+            if is_take(c0):
                 somes = [(bb, si, st) for bb, bl in enumerate(c.blocks) for si, st in enumerate(bl["s"]) if st["k"] == "assign" and st["r"]["k"] == "aggregate"
                          and st["r"].get("def") == "core::option::Option" and st["r"]["variant"] == "Some"]
                 for (bb, si, st) in somes:
